@@ -62,6 +62,10 @@ typedef struct ldb_reader_s {
      particular, a run of LDB_TYPE_MIDDLE and LDB_TYPE_LAST records can
      be silently skipped in this mode. */
   int resyncing;
+
+  /* True if any bytes were dropped or the file ended inside a record
+     (torn tail). Such a file must not be reopened for appending. */
+  int dirty;
 } ldb_reader_t;
 
 /*
